@@ -136,7 +136,7 @@ Section Partition.
   Variable deqb : D -> D -> bool.
   Variable f_eq_Z : F -> Z -> bool.                  (* Python: f == z  (1.0 == 1, hash-equal) *)
   Variable show_float : F -> str.                    (* str(np.float64) = repr *)
-  Variable parse_float : str -> option F.            (* float(x) / np.float64(x) / np.float32(x) *)
+  Variable parse_float : bool -> str -> option F.    (* single precision? -> np.float32(x) : float(x) / np.float64(x) *)
   Variable show_time_iso : T -> str.                 (* pd.Timestamp.isoformat()  (hive)  *)
   Variable show_time_str : T -> str.                 (* "%s" % pd.Timestamp       (drill) *)
   Variable parse_time_np : str -> option T.          (* np.datetime64(x)  *)
@@ -151,7 +151,7 @@ Section Partition.
 
   (* what the pandas metadata records for a partition column *)
   Inductive kind :=
-  | KInt (signed : bool) (bits : N) | KBool | KStr | KFloat | KTime (ns : bool) | KCat.
+  | KInt (signed : bool) (bits : N) | KBool | KStr | KFloat (single : bool) | KTime (ns : bool) | KCat.
 
   Fixpoint show (hive : bool) (v : value) : str :=
     match v with
@@ -196,7 +196,7 @@ Section Partition.
       | Some z => if in_range sg bits z then Ok (VInt z) else OErr
       | None => VErr
       end
-    | KFloat => res_of_opt (option_map VFloat (parse_float x))
+    | KFloat single => res_of_opt (option_map VFloat (parse_float single x))
     | KTime ns =>
       match parse_time_np x with
       | Some t => Ok (VTime t)
@@ -214,7 +214,7 @@ Section Partition.
     else match parse_int x with
     | Some z => VInt z
     | None =>
-    match parse_float x with
+    match parse_float false x with
     | Some f => VFloat f
     | None =>
     match parse_time_pd x with
